@@ -594,7 +594,7 @@ def oracle(ctx, disagreements, broken):
             n_hist += 1
         # 3. generated histories: clean stream (no own-number sends, no bounded resends: any failure is new),
         #    and a stream with both (failures must carry the known signatures)
-        budget = ctx.n(400, 3000) * (4 if broken else 1)
+        budget = ctx.n(400, 1500) * (4 if broken else 1)
         max_len = ctx.n(30, 60)
         for k in range(budget):
             own = d9 = (k % 4 == 3)
